@@ -331,14 +331,16 @@ func c12SegWorker(args []string) int {
 			if sv, _ := lmGetRaw(open, "lm", [3]int{0, 0, 0}, [3]int{1, 1, 1}, true, 0); sv != nil {
 				sp, rem, r := lmSplitSV(open, "lm", sv.v[0], []lmRun{{0, 0, 0, 1}})
 				if r.OK() {
-					fmt.Printf("ID label %d\nID label %d\n", sp, rem)
+					fmt.Printf("ID label %d\nID label %d\nID mutid %d\n", sp, rem, wlJSONField(r, "MutationID"))
 				}
 			}
 		case "cleave":
 			l, r := lmCleave(open, "lm", 1, 4)
 			if r.OK() {
-				fmt.Printf("ID label %d\n", l)
-				lmMerge(open, "lm", 1, 4)
+				fmt.Printf("ID label %d\nID mutid %d\n", l, wlJSONField(r, "MutationID"))
+				if mr := lmMerge(open, "lm", 1, 4); mr.OK() {
+					fmt.Printf("ID mutid %d\n", wlJSONField(mr, "MutationID"))
+				}
 			}
 		case "ingest-small", "ingest-above", "ingest-huge", "ingest-max":
 			fill := uint64(3)
@@ -413,6 +415,10 @@ func c12Histories(c *vlib.Ctx, states, transitions *int64) {
 	}
 	gen(nil, depth)
 	// (C) the label counter at the top of the 64-bit range: allocation must fail rather than wrap around
+	// (D) several restarts in one history with few allocations in between (mutation ids are persisted ahead in strides:
+	// a second restart before the first stride boundary must still move forward)
+	hist = append(hist, []string{"cleave", "restart", "cleave", "restart", "cleave"}, []string{"splitsv", "restart", "cleave", "cleave", "restart", "splitsv", "restart", "cleave"},
+		[]string{"restart", "cleave", "restart", "restart", "cleave"})
 	hist = append(hist, []string{"ingest-max", "nextlabel", "nextlabel", "nextlabel"}, []string{"ingest-max", "nextlabel", "splitsv"}, []string{"ingest-max", "restart", "nextlabel", "nextlabel"})
 	var n int64
 	vlib.Par(len(hist), 16, func(hi int) {
@@ -434,7 +440,7 @@ func c12Histories(c *vlib.Ctx, states, transitions *int64) {
 			}
 		}
 		segs = append(segs, cur)
-		var stored, lastAlloc uint64
+		var stored, lastAlloc, lastMut uint64
 		rep := map[string]interface{}{"history": h}
 		for si, s := range segs {
 			b, _ := json.Marshal(c12Seg{Ops: s, Setup: si == 0})
@@ -449,6 +455,13 @@ func c12Histories(c *vlib.Ctx, states, transitions *int64) {
 					if v > stored {
 						stored = v
 					}
+				}
+				if k, _ := fmt.Sscanf(l, "ID mutid %d", &v); k == 1 && v != 0 {
+					c.Eval(1)
+					if v <= lastMut {
+						c.Violate("hist:mutid-not-increasing", fmt.Sprintf("history %v: mutation id %d was issued after %d (process segment %d)", h, v, lastMut, si), rep)
+					}
+					lastMut = v
 				}
 				if k, _ := fmt.Sscanf(l, "ID label %d", &v); k == 1 {
 					c.Eval(1)
